@@ -13,7 +13,7 @@ RULE = ("arrays of numbers / strings / arrays from small pools (many duplicate k
         "minimal/maximal element. Non-trivial = length > 30 with a duplicate key, or sets with a non-empty "
         "intersection; distinct by SHA-1 of the case")
 
-NUM_POOL = [0.0, 1.0, 2.0, 3.0, -1.0, 0.5, 2.5, 1e10, -1e10, 7.0, 8.0, 9.0, 100.0]
+NUM_POOL = [0.0, -0.0, 0.0, -0.0, 1.0, 2.0, 3.0, -1.0, 0.5, 2.5, 1e10, -1e10, 7.0, 8.0, 9.0, 100.0]
 STR_POOL = ["", "a", "b", "ab", "aa", "B", "é", "中", "\U0001f600", "z", "á", "~", "￿", "\U00010000"]
 ARR_POOL = [[], [0.0], [1.0], [0.0, 0.0], [0.0, 1.0], [1.0, 0.0], [2.0], [0.0, 0.0, 0.0]]
 KEYFS = {
@@ -120,7 +120,7 @@ def check_sort(case):
         if not util.is_ok(r):
             raise Violation("error:" + e.split("(")[0], f"{e[:300]} failed: {r['err'].get('variant')} {r['err'].get('detail')}")
         got = util.typed(r)
-        if not V.same(got, T(exp), zero_sign=False):
+        if not V.same(got, T(exp), zero_sign=True):
             raise Violation("wrong:" + e.split("(")[0], f"{e[:400]} = {V.show(got)[:300]}, expected {V.show(T(exp))[:300]}")
     n = len(keys)
     dup = len(set(map(repr, (kf(e) for e in elems)))) < n
@@ -200,7 +200,7 @@ def check_sets(case):
         if not util.is_ok(r):
             raise Violation("error:" + e.split("(")[0], f"{e[:300]} failed: {r['err'].get('variant')} {r['err'].get('detail')}")
         got = util.typed(r)
-        if not V.same(got, T(exp), zero_sign=False):
+        if not V.same(got, T(exp), zero_sign=True):
             raise Violation("wrong:" + e.split("(")[0], f"{e[:400]} = {V.show(got)[:300]}, expected {V.show(T(exp))[:300]}")
     return {"nontrivial": len(inter) > 0, "labels": [case["pattern"]], "sample": {"a": asrc[:120], "b": bsrc[:120]}}
 
